@@ -1909,7 +1909,10 @@ class OALParser(object):
         '''instance_name : variable_name
                          | SELF
         '''
-        p[0] = p[1]
+        if p.slice[1].type == 'SELF':
+            p[0] = p[1].lower()
+        else:
+            p[0] = p[1]
         
     @track_production
     def p_identifier(self, p):
